@@ -617,6 +617,8 @@ static int run_dups(uint64_t seed, int ncases, int nmodel) {
             int dup = 0; for (int q = 0; q < got; q++) if (janet_equals(cands[idx[q]].k, cands[c].k)) dup = 1;
             if (!dup) idx[got++] = c;
         }
+        /* every third case has the number 0 among its keys, so that -0 / +0 (equal keys, different bits) occur as duplicates */
+        if (sm_next() % 3 == 0) { int has0 = 0; for (int q = 0; q < n; q++) if (idx[q] == 40) has0 = 1; if (!has0) idx[0] = 40; }
         int r = (sm_next() % 5) ? 1 : 0;
         Janet ks[24], vs[24]; int mult[8] = {0};
         for (int i = 0; i < m; i++) {
@@ -671,7 +673,13 @@ static int run_dups(uint64_t seed, int ncases, int nmodel) {
             if (rep >= 2) for (int i = fn - 1; i > 0; i--) { int j = (int)(sm_next() % (uint64_t)(i + 1)), t = ord[i]; ord[i] = ord[j]; ord[j] = t; }
             const JanetKV *ref = build_order(fk, fv, ord, fn);
             builds++;
-            if (!same_slots(ref, st) || janet_struct_hash(ref) != janet_struct_hash(st) || !janet_equals(janet_wrap_struct(ref), janet_wrap_struct(st)) ||
+            /* the property: same content => `=`, same hash, compare 0, and the same layout slot by slot up to `=` of keys; values
+             * bit for bit (which value wins).  WHICH of several `=` key objects is kept (the first) is compared by the model
+             * correspondence, not here: another choice would not violate the property. */
+            int same = janet_struct_capacity(ref) == janet_struct_capacity(st) && janet_struct_length(ref) == janet_struct_length(st);
+            for (int32_t i = 0; same && i < janet_struct_capacity(st); i++)
+                same = janet_equals(ref[i].key, st[i].key) && bits_of(ref[i].value) == bits_of(st[i].value);
+            if (!same || janet_struct_hash(ref) != janet_struct_hash(st) || !janet_equals(janet_wrap_struct(ref), janet_wrap_struct(st)) ||
                 janet_compare(janet_wrap_struct(ref), janet_wrap_struct(st)) != 0)
                 law("dups-final-map", cs, rep, r, isunder ? "under-announced" : "");
         }
@@ -681,7 +689,8 @@ static int run_dups(uint64_t seed, int ncases, int nmodel) {
             for (int i = 0; i < m; i++) { args[2 * i] = ks[i]; args[2 * i + 1] = vs[i]; }
             Janet res = janet_unwrap_cfunction(structfn)(2 * m, args);
             lang++;
-            if (!janet_checktype(res, JANET_STRUCT) || !same_slots(janet_unwrap_struct(res), st)) law("dups-struct-constructor", cs, -1, -1, "");
+            if (!janet_checktype(res, JANET_STRUCT) || !janet_equals(res, janet_wrap_struct(st)) || janet_hash(res) != janet_hash(janet_wrap_struct(st)))
+                law("dups-struct-constructor", cs, -1, -1, "");
         }
         janet_gcunroot(janet_wrap_struct(st));
         if ((cs & 31) == 31) collect();
